@@ -503,7 +503,8 @@ func TestVerifC11(t *testing.T) {
 		return
 	}
 	defer n.stop()
-	if code, b := c.postConfig(n.password, noThrottleConfig, "0"); code != 200 {
+	// throttling stays on (a small cooloff): the per-session throttle state is part of the state digest
+	if code, b := c.postConfig(n.password, strings.Replace(noThrottleConfig, `PostMessageCooloff = "0"`, `PostMessageCooloff = "8ms"`, 1), "0"); code != 200 {
 		rep.Broken(fmt.Sprintf("config post: %d %s", code, b))
 		return
 	}
@@ -534,6 +535,16 @@ func TestVerifC11(t *testing.T) {
 	if fresh == nil || logged == nil || other == nil || deleted == nil {
 		return
 	}
+	// a session ended by an IRC operator's KILL: its secret must be dead too
+	killed := mk("dave", true)
+	oper := mk("theop", true)
+	if killed == nil || oper == nil {
+		return
+	}
+	cm++
+	c.post(oper, "OPER op oppass", cm)
+	cm++
+	c.post(oper, "KILL dave :bye", cm)
 	cm++
 	c.post(other, "PRIVMSG #secret :SECRET-PAYLOAD-1", cm)
 	cm++
@@ -569,7 +580,7 @@ func TestVerifC11(t *testing.T) {
 	targets := []struct {
 		name string
 		s    *vsession
-	}{{"fresh", fresh}, {"logged-in", logged}, {"other", other}, {"deleted", deleted}, {"never-existed", never}}
+	}{{"fresh", fresh}, {"logged-in", logged}, {"other", other}, {"deleted", deleted}, {"killed-by-oper", killed}, {"never-existed", never}}
 	idForms := func(s *vsession) []string {
 		return []string{s.Id, fmt.Sprint(s.N)}
 	}
@@ -587,7 +598,7 @@ func TestVerifC11(t *testing.T) {
 						{"HEAD", "/messages", ""},
 					} {
 						hv, present := cr.val(tg.s)
-						if present && tg.s.Auth != "" && hv == tg.s.Auth && tg.name != "deleted" && tg.name != "never-existed" {
+						if present && tg.s.Auth != "" && hv == tg.s.Auth && tg.name != "deleted" && tg.name != "killed-by-oper" && tg.name != "never-existed" {
 							continue // happens to be the right secret
 						}
 						hdr := map[string]string{}
